@@ -41,3 +41,56 @@ package middleware
 //@   ensures ret(H, 1, old(calls(H))) != nil && ret(F, 0, old(calls(F))) && ret(P, 0, old(calls(P))) == nil ==> err == nil && events == ret(H, 0, old(calls(H))) [success-only-after-publish]
 //@   ensures ret(H, 1, old(calls(H))) != nil && ret(F, 0, old(calls(F))) && ret(P, 0, old(calls(P))) != nil ==> err != nil [publish-failure-keeps-an-error]
 //@   panics-ensures panicked(H, old(calls(H))) ==> calls(P) == old(calls(P)) && metaKept(msg) [panicking-handler-is-not-poisoned]
+
+// ---- simple middlewares (C19) ----
+
+//@ func InstantAck$1
+//@   requires message != nil && h != nil
+//@   callee H = h
+//@   ensures calls(H) == old(calls(H)) + 1 && result0 == ret(H, 0, old(calls(H))) && result1 == ret(H, 1, old(calls(H))) [result-passed-through]
+//@   ensures ncalls("(*Message).Ack") == old(ncalls("(*Message).Ack")) + 1 [acks-once]
+//@   assert @call:h: ncalls("(*Message).Ack") == old(ncalls("(*Message).Ack")) + 1 [ack-before-the-call]
+//@   panics-ensures panicked(H, old(calls(H))) [only-the-handler-panics]
+
+//@ func (IgnoreErrors).Middleware$1
+//@   requires msg != nil && h != nil
+//@   callee H = h
+//@   ensures calls(H) == old(calls(H)) + 1 && result0 == ret(H, 0, old(calls(H))) [outputs-passed-through]
+//@   ensures ret(H, 1, old(calls(H))) == nil ==> result1 == nil [success-stays-success]
+//@   ensures ret(H, 1, old(calls(H))) != nil && has(i.ignoredErrors, errtext(errcause(ret(H, 1, old(calls(H)))))) ==> result1 == nil [listed-error-becomes-success]
+//@   ensures ret(H, 1, old(calls(H))) != nil && !has(i.ignoredErrors, errtext(errcause(ret(H, 1, old(calls(H)))))) ==> result1 == ret(H, 1, old(calls(H))) [other-errors-kept]
+//@   panics-ensures panicked(H, old(calls(H))) [only-the-handler-panics]
+
+//@ func Recoverer$1
+//@   requires event != nil && h != nil
+//@   callee H = h
+//@   nopanic
+//@   ensures calls(H) == old(calls(H)) + 1 [handler-called-once]
+//@   ensures !panicked(H, old(calls(H))) ==> events == ret(H, 0, old(calls(H))) && err == ret(H, 1, old(calls(H))) [result-passed-through]
+//@   ensures panicked(H, old(calls(H))) ==> err != nil && hasdyntype(errunwrap(err), "middleware.RecoveredPanicError") && unbox(errunwrap(err), "middleware.RecoveredPanicError", "V") == panicval(H, old(calls(H))) && events == nil [panic-becomes-error-carrying-the-value]
+
+//@ func (Throttle).Middleware$1
+//@   requires message != nil && h != nil && t.ticker != nil && t.ticker.C != nil
+//@   ghost neverclosed t.ticker.C
+//@   callee H = h
+//@   ensures calls(H) == old(calls(H)) + 1 && result0 == ret(H, 0, old(calls(H))) && result1 == ret(H, 1, old(calls(H))) [result-passed-through]
+//@   assert @call:h: recvs(t.ticker.C) == old(recvs(t.ticker.C)) + 1 [one-tick-before-the-call]
+//@   panics-ensures panicked(H, old(calls(H))) [only-the-handler-panics]
+
+//@ func NewThrottle
+//@   requires count != 0
+//@   ensures result != nil [constructed]
+
+//@ func (CircuitBreaker).Middleware$1
+//@   requires msg != nil && h != nil && c.cb != nil
+//@   callee H = h
+//@   ensures calls(H) == old(calls(H)) + 1 && result0 == ret(H, 0, old(calls(H))) && result1 == ret(H, 1, old(calls(H))) [result-passed-through-closed-breaker]
+//@   panics-ensures panicked(H, old(calls(H))) [only-the-handler-panics]
+
+//@ func Timeout$1$1
+//@   requires msg != nil && h != nil
+//@   callee H = h
+//@   ensures calls(H) == old(calls(H)) + 1 && result0 == ret(H, 0, old(calls(H))) && result1 == ret(H, 1, old(calls(H))) [result-passed-through]
+//@   ensures !cancelled(old(ctxOf(msg))) ==> !cancelled(ctxOf(msg)) [context-not-left-cancelled]
+//@   assert @call:h: msg.ctx != nil && ctxparent(msg.ctx) == old(ctxOf(msg)) && ctxtimeout(msg.ctx) == timeout && (forall k any :: ctxval(msg.ctx, k) == ctxval(old(ctxOf(msg)), k)) [deadline-visible-during-the-call]
+//@   panics-ensures panicked(H, old(calls(H))) [only-the-handler-panics]
